@@ -1,5 +1,6 @@
 import Knut.Proofs.TableLayout
 import Knut.Proofs.TableCsv
+import Knut.Proofs.TableRound
 /-!
 # C17 — Rendered balance tables are rectangular and numerically faithful
 
@@ -35,6 +36,52 @@ theorem C17_separators_aligned (r : Renderer) (t : Table) (n : Nat) (hu : unifor
     ∃ ls, renderLines r t = .ok ls ∧ alignedOK n ls = true := by
   obtain ⟨W, ls, _, hl, hc⟩ := renderLines_conforms false r t n hu hp (by simp)
   exact ⟨ls, hl, alignedOK_of_conformsAll false r W n t.rows ls hc (uniform_spec hu).2.2⟩
+
+/-- the same, naming the columns: with the final widths `W` the separator columns are `0` and the
+column after each of the `n` slots (`lineBounds n W`: `n + 1` distinct positions), on every line. -/
+theorem C17_separator_columns (r : Renderer) (t : Table) (n : Nat) (hu : uniform n t = true) (hp : plain t = true) :
+    ∃ W ls, finalWidths r t = some W ∧ renderLines r t = .ok ls ∧
+      (lineBounds n W).Nodup ∧ ((ls ≠ []) → (lineBounds n W).length = n + 1) ∧
+      ∀ l ∈ ls, ∀ p ∈ lineBounds n W, sepAt l p = true := by
+  obtain ⟨W, ls, hW, hl, hc⟩ := renderLines_conforms false r t n hu hp (by simp)
+  have hn := (uniform_spec hu).2.2
+  have key : ∀ (rows : List (List Cell)) (ls : List (List Char)), conformsAll false r W rows ls = true →
+      (∀ row ∈ rows, row.length = n) →
+      ∀ l ∈ ls, (lineBounds n W).length = n + 1 ∧ ∀ p ∈ lineBounds n W, sepAt l p = true := by
+    intro rows
+    induction rows with
+    | nil => intro ls h _ l hl; cases ls <;> simp [conformsAll] at h hl
+    | cons row rows ih =>
+      intro ls h hn l hl
+      cases ls with
+      | nil => simp [conformsAll] at h
+      | cons l' ls' =>
+        simp only [conformsAll, Bool.and_eq_true] at h
+        rcases List.mem_cons.mp hl with rfl | hl
+        · have := conformsRow_sep false r W row _ h.1
+          rw [hn row (by simp)] at this
+          exact this
+        · exact ih ls' h.2 (fun y hy => hn y (by simp [hy])) l hl
+  have hall := key t.rows ls hc hn
+  refine ⟨W, ls, hW, hl, lineBounds_nodup n W, ?_, fun l hl => (hall l hl).2⟩
+  intro hne
+  cases ls with
+  | nil => exact absurd rfl hne
+  | cons l0 _ => exact (hall l0 (by simp)).1
+
+/-- the bytes written are those lines, each ended by a line feed, and one more line feed; the
+monitor's line splitter recovers exactly them. -/
+theorem C17_text_bytes (r : Renderer) (t : Table) (n : Nat) (hu : uniform n t = true) (hp : plain t = true) :
+    ∃ ls, renderText r t = .ok (joinLines ls) ∧ renderLines r t = .ok ls ∧ tableLines (joinLines ls) = some ls := by
+  obtain ⟨_, ls, _, hl, _⟩ := renderLines_conforms false r t n hu hp (by simp)
+  exact ⟨ls, by simp [renderText, hl], hl, tableLines_joinLines ls (renderLines_noNL r t ls hp hl)⟩
+
+/-- **the panic outcomes, under exactly the guards the code has**: `Render` completes iff every row
+has at least one cell (`row.cells[0]`) and at most as many cells as the table has columns
+(`widths[i]`); the balance report only builds such rows. -/
+theorem C17_render_completes_iff (r : Renderer) (t : Table) :
+    (∃ ls, renderLines r t = .ok ls) ↔ ∀ row ∈ t.rows, row ≠ [] ∧ row.length ≤ t.width :=
+  renderLines_ok_iff r t
 
 /-- **every line is lead, slots of the column widths, separators, trail, and every slot shows its
 cell** — for numeric cells: blank for zero, otherwise the text that, without separators, reads as
@@ -89,6 +136,25 @@ theorem C17_sign (r : Renderer) (d : Rat) :
     (numToString r d).head? = some '-' ↔ roundPlaces r.round (scaled r d) < 0 :=
   head_numToString r d
 
+/-- **rounded half away from zero**, spelled out: for `--digits = n ≥ 0` the value shown is
+`m / 10ⁿ` with `m` an integer nearest to `x·10ⁿ` (`x` the amount, resp. `Div(amount, 1000)`):
+`|x.num·10ⁿ − m·x.den| ≤ x.den / 2`, at a tie `m` is the one farther from zero, and `m` has the sign
+of `x` or is zero. -/
+theorem C17_round_half_away (r : Renderer) (d : Rat) (n : Nat) (hn : r.round = (n : Int)) :
+    ∃ m : Int, roundPlaces r.round (scaled r d) = mkRat m (10 ^ n) ∧
+      2 * ((scaled r d).num * pow10 n - m * (scaled r d).den).natAbs ≤ (scaled r d).den ∧
+      (2 * ((scaled r d).num * pow10 n - m * (scaled r d).den).natAbs = (scaled r d).den →
+        ((scaled r d).num * pow10 n).natAbs < (m * (scaled r d).den).natAbs) ∧
+      (0 ≤ (scaled r d).num → 0 ≤ m) ∧ ((scaled r d).num ≤ 0 → m ≤ 0) := by
+  refine ⟨scaledRound n (scaled r d), ?_, scaledRound_spec n (scaled r d)⟩
+  simp [roundPlaces, hn, roundHalfAway]
+
+/-- **negative amounts**: a negative amount is displayed with a minus sign, or (when it rounds to
+zero) as an unsigned zero. -/
+theorem C17_negative_minus_or_zero (r : Renderer) (d : Rat) (h : d < 0) :
+    (numToString r d).head? = some '-' ∨ roundPlaces r.round (scaled r d) = 0 :=
+  negative_minus_or_zero r d h
+
 /-- **blank**: a numeric cell is blank exactly when the (unrounded) amount is zero … -/
 theorem C17_blank (r : Renderer) (d : Rat) (w : Nat) :
     allSpaces (renderCell r (.num d) w) = true ↔ d = 0 :=
@@ -129,6 +195,13 @@ reads back to the *unrounded* amount (for every decimal amount). -/
 theorem C17_csv_positions (t : Table) (hd : ∀ row ∈ t.rows, ∀ c ∈ row, cellDecimal c) :
     csvOK t.rows (csvRecords t) = true :=
   csvOK_records t.rows hd
+
+/-- the hypothesis of `C17_csv_positions` holds of every decimal fraction `a / 10^k`, i.e. of every
+`decimal.Decimal`: its CSV field reads back as exactly that amount. -/
+theorem C17_csv_amount_exact (a : Int) (k : Nat) :
+    parseDec (String.ofList (csvCell (.num (mkRat a (10 ^ k))))) = some (mkRat a (10 ^ k)) := by
+  simp only [csvCell, String.ofList_toList]
+  exact parseDec_showDec _ (isDecimal_mkRat a k)
 
 /-- the bytes written by `encoding/csv` parse back to exactly those records (quoting of commas,
 quotes, line breaks and leading blanks loses nothing). -/
